@@ -11,7 +11,9 @@ def rotation_heavy(rng, n, comps):
     hs = []
     for i in range(n):
         h = histgen.gen_history(rng, nops=rng.choice([15, 30, 50]), comp=comps[i % len(comps)],
-                                out=["file", "fd"][i % 2], sizes=[1, 2, 3, 10000], qr_mode=rng.choice([None, "sparse"]))
+                                out=["file", "fd"][i % 2], sizes=[1, 2, 3, 10000], qr_mode=rng.choice([None, "sparse"]),
+                                allow_edit=False)      # (an in-place edit dropped afterwards would leave later records timed
+                                                       #  for a tick rate the preamble never had)
         # more rotations, including consecutive ones with nothing written
         ops = []
         for o in h["ops"]:
